@@ -413,6 +413,7 @@ func c17RunMDNS(tb drv.TB, rec *drv.Rec, sub string, c c17MDNS) {
 type c17NBNS struct {
 	Names []gen.NBNSName `json:"names"`
 	Stats int            `json:"stats"`
+	Trim  int            `json:"trim,omitempty"` // bytes missing at the end of the RDATA (a truncated record)
 }
 
 func c17RunNBNS(tb drv.TB, rec *drv.Rec, sub string, c c17NBNS) {
@@ -422,7 +423,7 @@ func c17RunNBNS(tb drv.TB, rec *drv.Rec, sub string, c c17NBNS) {
 	w := gen.DefaultWorld()
 	s := c17Session()
 	h := dns.VerifNew(s)
-	payload := gen.NBNSNodeStatus(0x1234, "*", c.Names, len(c.Names), c.Stats)
+	payload := gen.NBNSNodeStatusTrimmed(0x1234, "*", c.Names, len(c.Names), c.Stats, c.Trim)
 	fb := c17Frame(w, 137, 137, w.Clients[1], payload)
 	buf := make([]byte, packet.EthMaxSize)
 	n := copy(buf, fb)
@@ -444,6 +445,15 @@ func c17RunNBNS(tb drv.TB, rec *drv.Rec, sub string, c c17NBNS) {
 			want = strings.TrimRight(nm.Name, " ")
 			break
 		}
+	}
+	if c.Trim > c.Stats { // the name array itself is cut: the record must be rejected (no name learnt), never over-read
+		rec.Class("nbns: truncated name array")
+		if got.Name != "" && got.Name != want {
+			rec.Violation(tb, sub, "c17-nbns-truncated-array", c, "truncated node status array (%d bytes missing) produced the name %q", c.Trim, got.Name)
+			return
+		}
+		rec.NonTrivial(drv.HashJSON(c), func() interface{} { return c })
+		return
 	}
 	if gerr != nil || got.Name != want {
 		rec.Violation(tb, sub, "c17-nbns-name", c, "node status with names %v: got %q err=%v, first unique name is %q", c.Names, got.Name, gerr, want)
@@ -636,6 +646,9 @@ func TestC17(t *testing.T) {
 			c.Names = append(c.Names, gen.NBNSName{Name: rapid.StringOfN(rapid.RuneFrom([]rune("ABCDEFGHIJKLMNOPQRSTUVWXYZ0123456789-")), 1, 15, 15).Draw(t, "name"), Suffix: rapid.SampledFrom([]byte{0x00, 0x20}).Draw(t, "suffix"), Group: rapid.IntRange(0, 2).Draw(t, "group") == 0})
 		}
 		c.Stats = rapid.SampledFrom([]int{0, 46}).Draw(t, "stats")
+		if rapid.IntRange(0, 3).Draw(t, "trimmed") == 0 {
+			c.Trim = rapid.SampledFrom([]int{1, 2, 17, 18, 19, c.Stats + 1, c.Stats + 2}).Draw(t, "trim")
+		}
 		return c
 	}, func(tb drv.TB, c c17NBNS) { c17RunNBNS(tb, rec, "nbns", c) })
 
